@@ -560,6 +560,7 @@ func (c *Ctx) plySpecCaseEP(s plySpec, holdsOp string, fullEntries bool) {
 	// the file loads to the same mesh through every public entry point and reader type
 	c.Emit("c08.holds.entrypoints_agree", rs+" | "+plyEntryResults(data, fullEntries), "true")
 	c.Emit("c08.holds.header_entrypoints_agree", plyHeaderEntryResults(data), "true")
+	c.plyHeaderCuts("c08.holds.header_cut_rejected", data)
 }
 
 // a large file with values tagged by the vertex number, so that a displaced, repeated or dropped record is visible:
